@@ -19,6 +19,12 @@ claimed = {
              note="Timer library contract trusted; liveness/fairness clauses outside."),
  "C19": dict(design="8 C19", text="Proof: for every option name (arbitrary string) and every dynamic value (any type tag, any payload) each protocol socket/context SetOption returns bad-option for names outside its table, bad-value for a wrong type or out-of-range value with the state unchanged, and otherwise stores exactly the value; GetOption returns the stored field or bad-option; no make(chan, n<0) or failed type assertion; core SetOption falls through protocol -> socket with the same three-way contract and ignores endpoint answers; unsupported operations return the designated error and modify nothing; Device validates before spawning forwarders; receivers never leave their loop on a queue resize (one known finding: XBUS). Three defects found and fixed.",
              note="The option table (tools/gen_option_contracts.py) is the specification; inheritance by new contexts/endpoints not yet stated."),
+ "C02": dict(design="8 C02", text="Proof (partial): PAIR admits a peer only when it has none, a refused pipe leaves the peer untouched and spawns nothing, RemovePipe evicts the peer only if it is the pipe being removed (so removing a refused pipe cannot disturb the conversation); core never marks a refused pipe added; PUSH: a queued message always wakes the scheduler (Signal on every successful enqueue), the scheduler hands each dequeued message to exactly one ready pipe under the lock, a pipe is re-queued only after its SendMsg succeeded and while open, ownership of every message is affine along these paths; the send queue must have capacity >= 1 for the scheduler to see it (one known finding: WriteQLen 0).",
+             note="Delivery multiset/order across goroutines and liveness are outside."),
+ "C10": dict(design="8 C10", text="Proof (partial): every raw socket Close returns the closed error and changes nothing when already closed, otherwise sets the flag and closes the close channel; the handshaker closes a connection whose handshake completed after Close, and queues no live connection after Close; REQ cancelSend removes exactly the cancelled context from the send queue (order and all other entries preserved); pipe Close notifies the protocol iff it was added and the dialer iff there is one; dialer Close stops the redial timer and marks it closed; every RecvMsg that reports success returns a message.",
+             note="Goroutine/timer/address leaks, promptness and wake-on-close completeness are outside or not yet stated."),
+ "C14": dict(design="8 C14", text="Proof (partial): a closed dialer returns before the transport dial; a failed attempt without redial schedules nothing; with redial the timer is armed with exactly the current delay, the next delay never exceeds the configured maximum and is unchanged when no maximum is set; the delay is reset to the minimum on Dial and on a successful attach; pipe loss re-arms with the current delay; success arms no timer; a protocol refusal still closes the pipe so that the dialer is told.",
+             note="Floats as reals; real-time spacing and persistence are outside."),
  "C03": dict(design="8 C03", text="Proof (partial): the REQ receiver matches replies on the exact 32-bit id read from the message (no normalisation), only against the id->context map, forgets the id on the first match and stores the reply in that context only; short replies are dropped; cancel forgets the outstanding id and clears request/reply; every access to REQ state happens under the socket lock.",
              note="The full cross-call monitor invariant (I1-I5 of DESIGN) is not yet proved; id freshness assumed."),
  "C04": dict(design="8 C04", text="Proof (partial): each transmission hands exactly the retained request (pointer-equal, one extra reference) to one pipe and records it as lastPipe; the retry timer is armed with exactly the retry time and only when it is positive; the timer callback uses the id captured when it was armed; pipe loss re-queues via resendMessage when retries are enabled and cancels otherwise; resendMessage acts only if the id is current, the request retained and not already queued.",
